@@ -4,6 +4,7 @@ import (
 	"context"
 	"fmt"
 	"reflect"
+	"sort"
 	"sync"
 
 	"github.com/junioryono/godi/v4"
@@ -11,21 +12,22 @@ import (
 
 // ScopeRec is the harness's record of one scope (tag 0 = the provider / root scope).
 type ScopeRec struct {
-	Tag      int
-	Parent   int // tag of the parent (0 = created from the provider); -1 for the root itself
-	Depth    int
-	S        godi.Scope
-	CtxKind  int
-	UserCtx  context.Context
-	Cancel   context.CancelFunc
-	CtxKey   any
-	CtxVal   any
-	Created  bool  // CreateScope succeeded
-	CloseBeg int64 // seq stamp taken before the harness called Close / cancel (0 = never)
-	CloseEnd int64 // seq stamp after Close returned
-	CloseErr error
-	Closed   bool
-	Children []int
+	Tag                  int
+	Parent               int // tag of the parent (0 = created from the provider); -1 for the root itself
+	Depth                int
+	S                    godi.Scope
+	CtxKind              int
+	UserCtx              context.Context
+	Cancel               context.CancelFunc
+	CtxKey               any
+	CtxVal               any
+	CreateBeg, CreateEnd int64
+	Created              bool  // CreateScope succeeded
+	CloseBeg             int64 // seq stamp taken before the harness called Close / cancel (0 = never)
+	CloseEnd             int64 // seq stamp after Close returned
+	CloseErr             error
+	Closed               bool
+	Children             []int
 }
 
 // Obs is one observed operation.
@@ -43,14 +45,14 @@ type Obs struct {
 
 // Runner executes histories against a provider built from a World's config.
 type Runner struct {
-	W      *World
-	Coll   godi.Collection
-	P      godi.Provider
-	mu     sync.Mutex
-	Scopes map[int]*ScopeRec
-	next   int
-	Obs    []*Obs
-	PClosed bool
+	W                    *World
+	Coll                 godi.Collection
+	P                    godi.Provider
+	mu                   sync.Mutex
+	Scopes               map[int]*ScopeRec
+	next                 int
+	Obs                  []*Obs
+	PClosed              bool
 	PCloseBeg, PCloseEnd int64
 }
 
@@ -98,6 +100,10 @@ func (r *Runner) Build(order []int) *Obs {
 
 type ctxKeyT struct{ n int }
 
+// SkipTag consumes a scope tag without creating a scope (keeps numbering
+// aligned when a scripted create is skipped).
+func (r *Runner) SkipTag() { r.mu.Lock(); r.next++; r.mu.Unlock() }
+
 // CreateScope creates a scope under parent (0 = provider). ctxKind: 0 nil,
 // 1 Background, 2 cancellable, 3 cancellable carrying a value.
 func (r *Runner) CreateScope(parent int, ctxKind int) (*ScopeRec, *Obs) {
@@ -122,6 +128,10 @@ func (r *Runner) CreateScope(parent int, ctxKind int) (*ScopeRec, *Obs) {
 	}
 	rec.UserCtx = ctx
 	o := &Obs{Kind: "create", Scope: tag, StartSeq: r.W.NextSeq()}
+	rec.CreateBeg = o.StartSeq
+	r.mu.Lock()
+	r.Scopes[tag] = rec
+	r.mu.Unlock()
 	undo := r.W.SetOpScope(tag)
 	guard(o, func() {
 		var s godi.Scope
@@ -142,8 +152,8 @@ func (r *Runner) CreateScope(parent int, ctxKind int) (*ScopeRec, *Obs) {
 	})
 	undo()
 	o.EndSeq = r.W.NextSeq()
+	rec.CreateEnd = o.EndSeq
 	r.mu.Lock()
-	r.Scopes[tag] = rec
 	if rec.Created && pr != nil {
 		pr.Children = append(pr.Children, tag)
 	}
@@ -306,4 +316,16 @@ func (r *Runner) ScopeDead(tag int) bool {
 		}
 	}
 	return false
+}
+
+// Tags lists all scope tags known to the runner in ascending order.
+func (r *Runner) Tags() []int {
+	r.mu.Lock()
+	defer r.mu.Unlock()
+	var out []int
+	for t := range r.Scopes {
+		out = append(out, t)
+	}
+	sort.Ints(out)
+	return out
 }
